@@ -53,6 +53,10 @@ func (d *Disk) Fault(path string, f ReadFault, arg int) {
 	df.fault, df.arg = f, arg
 }
 
+// (like the scheduler's own state the disk is outside the race detector's view: only the goroutine holding the token is in here,
+// and a real disk gives concurrent readers no happens-before edge either)
+//
+//go:norace
 func (d *Disk) read(path string) ([]byte, error) {
 	d.Reads++
 	df := d.files[path]
